@@ -29,7 +29,9 @@ RULE = ("fault site = each layer of the transport stack (network, segments, nois
         "unencodable attribute value, 16 MiB frame, send before login, undecodable server frame, picture notification without "
         "set/delete, stream:error without type, raising application callback; follow-ups: a send from a new thread, a send from a "
         "thread that already failed, an incoming stanza, then a disconnect + reconnect + the same follow-ups. enumerated: every "
-        "(site, direction, variant) with a fixed sequence; generated: the rest. Non-trivial = the fault fired and was not at the "
+        "(site, direction, variant) with a fixed sequence; generated: the rest. Login race: 2-4 stanzas sent right behind the handshake "
+        "reply of a resumed login (1..all of them in the reply's read, the others in reads of their own, delivered up-front or while "
+        "the application callback for the first one is still running), the callback fails on the first. Non-trivial = the fault fired and was not at the "
         "last position and a follow-up came from another thread. Distinct = distinct canonical JSON.")
 ASSUMPTIONS = [
     "a fault at or below the cipher (noise, segments, network) loses a ciphertext, which no peer can recover from on the same "
@@ -117,7 +119,146 @@ def install_fault(rig, fault, state):
     setattr(layer, meth, wrapper)
 
 
+def run_login_race(case):
+    """The application callback fails on the first of several stanzas the server sends right behind its handshake reply.
+    The first k frames share the read with the reply and are delivered by the handshake thread once the session is
+    established; the others arrive in reads of their own on the network thread, which may overlap that delivery.
+    Oracle: the failure is reported in one of the two threads, nothing blocks, no lock stays held, and every frame whose
+    own read was handled without an error after the session was established has reached the application - without
+    waiting for further traffic; after one more incoming stanza everything except the failed one has arrived in order."""
+    from consonance.structs.publickey import PublicKey
+    from consonance.structs.keypair import KeyPair
+    from yowsup.config.v1.config import Config
+    from ..kit.noise_server import NoiseServer
+    out = Outcome()
+    server = NoiseServer()
+    cfg = Config(phone="4915112345", cc="49", client_static_keypair=KeyPair.generate(),
+                 server_static_public=PublicKey(bytes(server.s.public.data)))
+    rig = TR.Rig(choices=case.get("choices", ()), config=cfg, server=server, preempt=case.get("preempt"))
+    try:
+        n = case["frames"]
+        k = max(1, min(case["coalesced"], n))
+        out.label("variant=core", "fault=raise_at_login", "frames=%d" % n, "coalesced=%d" % k)
+        top = rig.top
+        state = {"raised": False}
+        orig_top = top.receive
+
+        later_chunks = []
+
+        def top_receive(node):
+            if not state["raised"] and getattr(node, "tag", None) == "receipt":
+                state["raised"] = True
+                if case.get("overlap") and later_chunks:
+                    # the further reads arrive while this callback is still running (it takes its time, then fails)
+                    for ch in later_chunks:
+                        rig.deliver(ch)
+                    del later_chunks[:]
+                    rig.sched.sleep(1.0)
+                raise Injected("application callback failed")
+            return orig_top(node)
+        top.receive = top_receive
+        noise = rig.stack.getLayer(2)
+        calls = []          # one entry per read handed to the noise layer: [returned normally, session established when it began]
+        orig_noise = noise.receive
+
+        def noise_receive(data):
+            entry = [False, not noise._in_handshake()]
+            calls.append(entry)
+            r = orig_noise(data)
+            entry[0] = True
+            return r
+        noise.receive = noise_receive
+        rig.post("connect")
+        rig.run()
+        try:
+            server.feed(rig.take_client_bytes())
+        except TR.ProtocolViolation as e:
+            out.fail("login", "login_race:server_rejects_client_bytes", {"problem": str(e)})
+            return out
+        if server.state != "transport":
+            raise HarnessError("the responder double did not reach transport state after an IK client hello")
+        first = bytes(server.take_out())
+        chunks = []
+        for i in range(n):
+            server.send_frame(R.encode(in_stanza("receipt", "early-%d" % i)))
+            f = bytes(server.take_out())
+            if i < k:
+                first += f
+            else:
+                chunks.append(f)
+        if case.get("overlap"):
+            later_chunks.extend(chunks)
+            rig.deliver(first)
+            rig.run()
+            rig.sched.advance(2.0)      # the slow callback finishes (and fails)
+            rig.run()
+            for ch in later_chunks:     # (the callback never ran: hand the reads over now)
+                rig.deliver(ch)
+            rig.run()
+            out.label("reads_overlap_the_failing_callback")
+        else:
+            for ch in [first] + chunks:
+                rig.deliver(ch)
+            rig.run()
+        stuck = rig.stuck_tasks()
+        if stuck:
+            out.fail("wedged", "login_race:task_blocked_forever", {"blocked": stuck})
+            return out
+        if rig.sched.overrun:
+            out.fail("wedged", "login_race:no_progress_step_limit", {})
+            return out
+        held = [repr(l) for l in S.held_locks()]
+        if held:
+            out.fail("locks", "login_race:lock_still_held", {"locks": held[:4]})
+            return out
+        task_errs = [(t.name, t.exc) for t in rig.sched.tasks if t.exc is not None]
+        foreign = [(nm, repr(e)[:200]) for nm, e in task_errs if not isinstance(e, Injected)] + \
+                  [("net", repr(e)[:200]) for e in rig.net_errors + rig.recv_errors if not isinstance(e, Injected)]
+        if foreign:
+            out.fail("wedged", "login_race:task_died", {"errors": foreign})
+            return out
+        if state["raised"] and not ([1 for nm, e in task_errs if isinstance(e, Injected)] or
+                                    [1 for e in rig.net_errors + rig.recv_errors if isinstance(e, Injected)]):
+            out.fail("report", "login_race:up_fault_not_reported_to_caller", {})
+            return out
+        got = _got_ids(rig, "core")
+        # calls[0] is the handshake reply; frame i was handed over in calls[1 + i]
+        overlap = False
+        for i in range(1, n):
+            if 1 + i < len(calls) and calls[1 + i][0] and calls[1 + i][1]:
+                overlap = overlap or i >= k
+                if "early-%d" % i not in got:
+                    out.fail("delivery", "login_race:frame_handled_without_error_but_not_delivered",
+                             {"frame": i, "coalesced": k, "delivered": got, "calls": calls})
+                    return out
+        if overlap:
+            out.label("read_on_network_thread_after_session_established")
+        # one more incoming stanza: everything except the failed one has arrived, in order, once
+        server.send_frame(R.encode(in_stanza("receipt", "later")))
+        rig.shuttle()
+        got = _got_ids(rig, "core")
+        expected = ["early-%d" % i for i in range(1, n)] + ["later"]
+        if [g for g in got if g in expected] != expected:
+            out.fail("delivery", "login_race:incoming_lost_or_out_of_order", {"delivered": got, "expected": expected})
+            return out
+        # and the session still works downward
+        def fresh():
+            rig.top.toLower(out_stanza("core", "after-fresh"))
+        n0 = len(server.frames)
+        rig.sched.spawn("after-fresh", fresh)
+        p = rig.shuttle()
+        if p or len(server.frames) != n0 + 1:
+            out.fail("order", "login_race:followup_send_failed", {"problem": str(p[0]) if p else None, "frames": len(server.frames) - n0})
+            return out
+        out.info = {"nt": state["raised"] and n >= 2, "steps": rig.sched.steps}
+        return out
+    finally:
+        rig.close()
+
+
 def run_case(case):
+    if case.get("sub") == "login_race":
+        return run_login_race(case)
     out = Outcome()
     variant = case["variant"]
     fault = case["fault"]
@@ -384,6 +525,10 @@ def shrink_candidates(case):
     if case.get("choices"):
         yield dict(case, choices=[])
         yield dict(case, choices=case["choices"][:len(case["choices"]) // 2])
+    if case.get("sub") == "login_race":
+        if case["frames"] > 2:
+            yield dict(case, frames=case["frames"] - 1)
+        return
     if len(case["tasks"]) > 1:
         for i in range(len(case["tasks"])):
             yield dict(case, tasks=case["tasks"][:i] + case["tasks"][i + 1:])
@@ -452,13 +597,31 @@ def case_strategy():
     return build()
 
 
+def login_race_strategy():
+    @st.composite
+    def build(draw):
+        n = draw(st.integers(2, 4))
+        case = {"sub": "login_race", "frames": n, "coalesced": draw(st.integers(1, n)), "overlap": draw(st.booleans()),
+                "choices": draw(st.lists(st.integers(0, 7), min_size=0, max_size=draw(st.sampled_from([0, 0, 40, 200]))))}
+        if not case["choices"]:
+            case["preempt"] = draw(st.lists(st.tuples(st.integers(0, 600), st.integers(0, 3)).map(list), min_size=0, max_size=3))
+        return case
+    return build()
+
+
+def _enum_login_race():
+    for n, k in ((2, 1), (3, 1), (3, 2), (3, 3), (4, 1)):
+        for overlap in (False, True):
+            yield {"sub": "login_race", "frames": n, "coalesced": k, "overlap": overlap, "choices": []}
+
+
 def plan(tier):
     quick = tier == "quick"
     return {
         "shards": 16,
-        "enumerations": [("every_site", _enum_sites)],
+        "enumerations": [("every_site", _enum_sites), ("login_race_basic", _enum_login_race)],
         "exhaustive": ["every_site"],
-        "strategies": [("faults", case_strategy(), 60 if quick else 4000)],
+        "strategies": [("faults", case_strategy(), 60 if quick else 4000), ("login_race", login_race_strategy(), 30 if quick else 2000)],
         "shrink": "ddmin",
         "budget_s": 150 if quick else 1500,
     }
